@@ -147,7 +147,9 @@ def _restart(lib, pipeline, docs, pps, hashseed):
     tmp = tempfile.mkdtemp(prefix="qsim-store-", dir="/dev/shm" if os.path.isdir("/dev/shm") else None)
     try:
         path = os.path.join(tmp, "model.pbz")
-        lib["nb_scorer"].save_naive_bayes(pipeline, path)
+        import pathlib
+        # str and os.PathLike spellings of the file name are both legitimate
+        lib["nb_scorer"].save_naive_bayes(pipeline, pathlib.Path(path) if hashseed % 2 else path)
         env = dict(os.environ)
         env["PYTHONHASHSEED"] = str(hashseed)
         env["PYTHONDONTWRITEBYTECODE"] = "1"
@@ -466,7 +468,7 @@ def _pp(rng, alphabet):
         spans.append([pos, pos + ln])
         pos += ln + rng.randint(0, 2)
     txt_len = pos + rng.randint(0, 6)
-    rules = [rng.choice(alphabet) for _ in range(rng.randint(1, 5))]
+    rules = [rng.choice(alphabet) for _ in range(rng.randint(0, 5))]
     return txt_len, spans, rules
 
 
